@@ -4,13 +4,16 @@
 //
 // Case kinds (cases.txt) and what the implementation printed (impl.txt):
 //
-//	O seed tag n v          oracle table: v = rng.FixedInt(n, "<seed>:<field>")            impl "-"
-//	G hostseed <pattern>    trafficpattern.NewConfig                                       "ERR k" | "OK <effective pattern> V k"
-//	R size min max          cipher.nonceRewriteLen, 64 calls (min/max as set on the cipher) sorted distinct lengths
-//	U implicit all k        which of k consecutive newNonce calls applied the pattern      k bits
-//	K type nhex hex...      class of the prefix newNonce produces (min=max=12)             0 none 1 printable 2 subset 3 fixed
-//	P mtu stream frag existing pos has <pattern>   maxPaddingSizeWithTrafficPattern        number
-//	E client used has <pattern>                    Session.lowEntropySendConfig            "mode rotation send"
+//		O seed tag n v          oracle table: v = rng.FixedInt(n, "<seed>:<field>")            impl "-"
+//		G hostseed <pattern>    trafficpattern.NewConfig                                       "ERR k" | "OK <effective pattern> V k"
+//		R size min max          cipher.nonceRewriteLen, 64 calls (min/max as set on the cipher) sorted distinct lengths
+//		U implicit all k        which of k consecutive newNonce calls applied the pattern      k bits
+//		K type nhex hex...      class of the prefix newNonce produces (min=max=12)             0 none 1 printable 2 subset 3 fixed
+//		P mtu stream frag existing pos has <pattern>   maxPaddingSizeWithTrafficPattern        number
+//		E client used has <pattern>                    Session.lowEntropySendConfig            "mode rotation send"
+//
+//	  W n has <pattern>       StreamUnderlay.writeWithPossibleFragment on a recording conn (n bytes)  sizes of the conn.Write calls ("-" = none)
+//	  Q n                     int(math.Sqrt(float64(n))) as the Go compiler evaluates it              number
 //
 // History independence (oracle only, no model line): the contract of rng.FixedInt - docs/traffic-pattern.md: "with the same
 // seed and unlockAll values, the generated implicit traffic patterns do not change", "if seed is provided, the generated
@@ -36,10 +39,12 @@ import (
 	"encoding/hex"
 	"fmt"
 	"math"
+	"net"
 	"os"
 	"os/exec"
 	"sort"
 	"strings"
+	"time"
 
 	"github.com/enfein/mieru/v3/apis/trafficpattern"
 	pb "github.com/enfein/mieru/v3/pkg/appctl/appctlpb"
@@ -242,6 +247,81 @@ func (d *drv) historyGroup(a, b *pb.TrafficPattern, kind string, inProcAFirst bo
 	}
 	check("a", a, alone[0], []obs{{"fresh process, order a,b", ab[0]}, {"fresh process, order b,a", ba[1]}, {"this process", ipa}, {"this process, again", ipa2}})
 	check("b", b, alone[1], []obs{{"fresh process, order a,b", ab[1]}, {"fresh process, order b,a", ba[0]}, {"this process", ipb}})
+}
+
+// recConn records every Write (a copy of the bytes); everything else is inert.
+type recConn struct{ writes [][]byte }
+
+func (c *recConn) Write(b []byte) (int, error) {
+	c.writes = append(c.writes, append([]byte(nil), b...))
+	return len(b), nil
+}
+func (c *recConn) Read(b []byte) (int, error)         { select {} }
+func (c *recConn) Close() error                       { return nil }
+func (c *recConn) LocalAddr() net.Addr                { return &net.TCPAddr{} }
+func (c *recConn) RemoteAddr() net.Addr               { return &net.TCPAddr{} }
+func (c *recConn) SetDeadline(t time.Time) error      { return nil }
+func (c *recConn) SetReadDeadline(t time.Time) error  { return nil }
+func (c *recConn) SetWriteDeadline(t time.Time) error { return nil }
+
+// fragCase writes n bytes through writeWithPossibleFragment with pattern tp and judges the recorded writes.
+func (d *drv) fragCase(n int, tp *pb.TrafficPattern) {
+	r := d.r
+	data := make([]byte, n)
+	for i := range data {
+		data[i] = byte(i*7 + 3 + i>>8)
+	}
+	c := &recConn{}
+	t0 := time.Now()
+	err := protocol.VerifC16WriteWithPossibleFragment(c, tp, data)
+	el := time.Since(t0)
+	enabled := tp != nil && tp.TcpFragment != nil && tp.TcpFragment.Enable != nil && *tp.TcpFragment.Enable
+	rc := map[string]interface{}{"n": n, "pattern": patTokens(nil2empty(tp)), "pattern_nil": tp == nil}
+	var sizes []string
+	var cat []byte
+	for _, w := range c.writes {
+		sizes = append(sizes, fmt.Sprint(len(w)))
+		cat = append(cat, w...)
+		if enabled && len(w) == 0 {
+			r.Fail("tcp-fragment-empty-write", "a fragment is empty", rc)
+		}
+	}
+	if err != nil {
+		r.Fail("tcp-fragment-write-error", err.Error(), rc)
+	}
+	if !bytes.Equal(cat, data) {
+		r.Fail("tcp-fragment-bytes-differ", fmt.Sprintf("the %d writes do not concatenate to the %d byte buffer", len(c.writes), n), rc)
+	}
+	if enabled && n >= 3 && len(c.writes) < 2 {
+		r.Fail("tcp-fragment-not-honoured", fmt.Sprintf("tcpFragment.enable=true but %d bytes left in %d write", n, len(c.writes)), rc)
+	}
+	if !enabled && len(c.writes) != 1 {
+		r.Fail("tcp-fragment-without-enable", fmt.Sprintf("fragmentation not enabled but %d writes", len(c.writes)), rc)
+	}
+	if ms := tp.GetTcpFragment().GetMaxSleepMs(); !enabled || ms <= 0 {
+		if el > 500*time.Millisecond {
+			r.Fail("tcp-fragment-sleeps-without-maxsleep", fmt.Sprintf("write took %v although no sleep is configured", el), rc)
+		}
+	}
+	has := "0"
+	if tp != nil {
+		has = "1 " + patTokens(tp)
+	}
+	line := strings.Join(sizes, " ")
+	if line == "" {
+		line = "-"
+	}
+	r.Case(fmt.Sprintf("W %d %s", n, has), line)
+	r.Count("tcp-fragment")
+	cls := "n>=3"
+	if n < 3 {
+		cls = fmt.Sprint(n)
+	}
+	var msp *int32
+	if tp != nil && tp.TcpFragment != nil {
+		msp = tp.TcpFragment.MaxSleepMs
+	}
+	r.Distinct(fmt.Sprintf("W/%v/%s/%s/%v", enabled, cls, oi32(msp), tp == nil))
 }
 
 type drv struct {
@@ -1020,6 +1100,66 @@ func main() {
 		}
 	}
 	r.Count("low-entropy-decision")
+
+	// ---------- W: TCP fragmentation of one stream write
+	fsizes := []int{0, 1, 2, 3, 4, 5, 8, 9, 10, 15, 16, 17, 24, 25, 26, 48, 72, 73, 100, 121, 143, 144, 145, 255, 256, 327, 328, 1000, 1024, 1400, 1472, 4095, 4096, 4097, 16384, 32768, 32768 + 343, 65535, 66000}
+	nrandSizes := 40
+	if r.Thorough() {
+		nrandSizes = 600
+		for n := 0; n <= 300; n++ {
+			fsizes = append(fsizes, n)
+		}
+	}
+	for i := 0; i < nrandSizes; i++ {
+		switch i % 3 {
+		case 0:
+			fsizes = append(fsizes, rg.Intn(200))
+		case 1:
+			fsizes = append(fsizes, rg.Intn(3000))
+		default:
+			fsizes = append(fsizes, rg.Intn(66000))
+		}
+	}
+	fpats := []*pb.TrafficPattern{
+		nil, {}, {TcpFragment: &pb.TCPFragment{}}, {TcpFragment: &pb.TCPFragment{Enable: bp(false)}},
+		{TcpFragment: &pb.TCPFragment{Enable: bp(false), MaxSleepMs: ip(100)}}, {TcpFragment: &pb.TCPFragment{MaxSleepMs: ip(100)}},
+		{TcpFragment: &pb.TCPFragment{Enable: bp(true)}}, {TcpFragment: &pb.TCPFragment{Enable: bp(true), MaxSleepMs: ip(0)}},
+	}
+	for _, n := range fsizes {
+		for _, tp := range fpats {
+			d.fragCase(n, tp)
+		}
+		// effective patterns of generated configurations (enable and maxSleepMs implicit, unlockAll off: never enabled)
+		if n%5 == 0 {
+			cfg, err := trafficpattern.NewConfig(&pb.TrafficPattern{Seed: ip(int32(n)), TcpFragment: &pb.TCPFragment{Enable: bp(n%2 == 0)}})
+			if err != nil {
+				panic(err)
+			}
+			d.fragCase(n, cfg.Effective())
+		}
+	}
+	// with sleeps (few and small buffers: every piece sleeps up to maxSleepMs)
+	for _, n := range []int{3, 10, 100, 1000} {
+		for _, ms := range []int32{1, 2} {
+			d.fragCase(n, &pb.TrafficPattern{TcpFragment: &pb.TCPFragment{Enable: bp(true), MaxSleepMs: ip(ms)}})
+		}
+	}
+
+	// ---------- Q: Go's int(math.Sqrt(float64(n))) against the model's floor square root
+	qn := func(n int) {
+		r.Case(fmt.Sprintf("Q %d", n), fmt.Sprint(int(math.Sqrt(float64(n)))))
+	}
+	for n := 0; n <= 70000; n++ {
+		qn(n)
+	}
+	for k := 265; k <= 46340; k += 1 + k/50 {
+		qn(k*k - 1)
+		qn(k * k)
+		qn(k*k + 1)
+	}
+	qn(math.MaxInt32)
+	r.Count("isqrt")
+	r.Distinct("Q/all")
 	r.Rep.Notes = map[string]string{
 		"host_seed":    fmt.Sprint(d.hostSeed),
 		"round_trip":   "Decode(Encode(p)) == p is a test of google.golang.org/protobuf + encoding/base64 (library round trip): tested on every valid original and effective pattern, not proved",
